@@ -418,7 +418,11 @@ def wrap_subs(rng, c, p=0.35):
         ks = sorted(cond_keys(c, set()))
         if ks:
             sel = rng.sample(ks, rng.randint(1, len(ks)))
-            return ['sub', [['var', v] for v in sel], c]
+            sub = ['sub', [['var', v] for v in sel], c]
+            if rng.random() < 0.3:
+                # a nested query whose WHOLE condition is another nested query: an(entity(v, an(entity(v, c))))
+                sub = ['sub', [['var', v] for v in rng.sample(sel, rng.randint(1, len(sel)))], sub]
+            return sub
     return c
 
 
